@@ -74,6 +74,11 @@ M.update({
     "atomic_decrement_cas_ignores_failure": ("src/world/entity.rs", "        match i.compare_exchange_weak(prev, prev - 1, Ordering::Relaxed, Ordering::Relaxed) {\n            Ok(x) => return Some(x),\n            Err(next_prev) => prev = next_prev,\n        }\n    }\n    None\n}\n\n#[cfg(test)]", "        match i.compare_exchange_weak(prev, prev - 1, Ordering::Relaxed, Ordering::Relaxed) {\n            Ok(x) => return Some(x),\n            Err(_) => return Some(prev),\n        }\n    }\n    None\n}\n\n#[cfg(test)]", "C10"),
 })
 
+M.update({
+    "merge_recycles_in_hash_order": ("src/world/entity.rs", "        self.cache.extend(deleted.iter().map(|e| e.0));\n\n        deleted", "        let hs: std::collections::HashSet<Index> = deleted.iter().map(|e| e.0).collect();\n        self.cache.extend(hs.into_iter());\n\n        deleted", "C20"),
+    "kill_recycles_in_address_order": ("src/world/entity.rs", "        self.cache.extend(delete.iter().map(|e| e.0));\n\n        Ok(())", "        let salt = (&self.generations as *const _ as usize >> 12) as u32 & 1;\n        if salt == 0 {\n            self.cache.extend(delete.iter().map(|e| e.0));\n        } else {\n            self.cache.extend(delete.iter().rev().map(|e| e.0));\n        }\n\n        Ok(())", "C20"),
+})
+
 
 def sh(cmd, **kw):
     return subprocess.run(cmd, shell=True, **kw)
